@@ -243,9 +243,21 @@ theorem isZero_iff (q : Quantity α) : q.isZero = true ↔ q.value = 0 := by
 
 theorem lt_scale (a b c : α) (hc : Pos c) : lt a b = lt (a * c) (b * c) := (lt_mul_pos a b c hc).symm
 
+theorem beq_scale (a b c : α) (hc : Pos c) : beq a b = beq (a * c) (b * c) := by
+  have hne := pos_ne_zero _ hc
+  cases h1 : beq a b <;> cases h2 : beq (a * c) (b * c) <;> try rfl
+  · rw [beq_iff] at h2
+    have : a = b := by grind
+    rw [← beq_iff] at this
+    rw [this] at h1; cases h1
+  · rw [beq_iff] at h1
+    have : a * c = b * c := by grind
+    rw [← beq_iff] at this
+    rw [this] at h2; cases h2
+
 theorem cmpValues_scale (a b c : α) (hc : Pos c) : cmpValues a b = cmpValues (a * c) (b * c) := by
   unfold cmpValues
-  rw [lt_scale a b c hc, lt_scale b a c hc]
+  rw [lt_scale a b c hc, lt_scale b a c hc, beq_scale a b c hc]
 
 /-- comparison of two quantities is comparison of their physical values, whenever both operands can be
 expressed in the other's unit (same dimension) and neither is NaN -/
@@ -296,6 +308,10 @@ theorem cmpValues_swap (x y : α) :
       | .lt => .gt | .gt => .lt | o => o := by
   unfold cmpValues
   cases h1 : lt x y <;> cases h2 : lt y x <;> simp
+  · have hxy := lt_total x y h1 h2
+    subst hxy
+    have hb : beq x x = true := (beq_iff x x).mpr rfl
+    simp [hb]
   · have := lt_asymm x y h1; rw [this] at h2; cases h2
 
 theorem cmpValues_eq_iff (x y : α) : cmpValues x y = .eq ↔ x = y := by
@@ -304,11 +320,16 @@ theorem cmpValues_eq_iff (x y : α) : cmpValues x y = .eq ↔ x = y := by
   · intro h
     cases h1 : lt x y <;> cases h2 : lt y x <;> simp [h1, h2] at h
     exact lt_total x y h1 h2
-  · intro h; subst h; simp [lt_irrefl]
+  · intro h; subst h
+    have hb : beq x x = true := (beq_iff x x).mpr rfl
+    simp [lt_irrefl, hb]
 
 theorem cmpValues_cases (x y : α) : cmpValues x y = .lt ∨ cmpValues x y = .eq ∨ cmpValues x y = .gt := by
   unfold cmpValues
-  cases lt x y <;> cases lt y x <;> simp
+  cases h1 : lt x y <;> cases h2 : lt y x <;> simp
+  have hxy := lt_total x y h1 h2
+  have hb : beq x y = true := (beq_iff x y).mpr hxy
+  simp [hb]
 
 
 /-- the physical value of a sum is the sum of the physical values -/
